@@ -37,6 +37,18 @@ CLAIMED = {
          'translator-regenerated kernels; case analysis on isclose/ordering + field proofs; bit-exact cross-check; targeted search (steep lines, linear-in-x quadratics)', '4/C15'),
  'C18': ('Full statement over R for all segments and t with non-vanishing derivative: tangent = unit derivative (also via Derive), line tangent = unit chord, normal = tangent turned ccw for lines and curves, start/end angles = leg directions, curvature formula for cubics and quadratics with the hodograph\'s derivative, line curvature 2^-52.',
          'translator-regenerated kernels; trig (atan2/cos/sin) and Rpower lemmas; kernel cross-check through a recorded libm table', '4/C18'),
+ 'C03': ('Proved over R: extremes are exactly the sign-change parameters of x\' or y\' in [0.01,0.99] (quadratics; cubics with a genuine or exactly vanishing leading coefficient), none for lines; the split walk retraces the original piece by piece for ANY request list, '
+         'keeps all nodes, start, end and connectivity; every piece between the cuts is monotone up to 0.06% of the original extent (exactly monotone without sliver zeros). Paths containing the same segment value twice are a recorded known finding (refutation witness proved). Float placement of cuts is measured.',
+         'translator-regenerated kernels + hand model of splitAtPoints/addExtremes (value-keyed dict) with bit-exact correspondence; induction over the walk, Simpson/IVT sign analysis', '4/C03'),
+ 'C06': ('Proved over R on a hand model tied by bit-exact correspondence (ranges are dyadic): range invariant (a visited piece IS the sub-curve of its range), every report comes from two overlapping boxes of area < 1e-3 with an explicit distance bound, no crossing is missed modulo box enclosure, dedup keeps the first report per key, hasLoop returns a genuine double point iff the discriminant is negative, self-intersection enumeration. '
+         'The quantitative 0.2% clauses are REFUTED for the model and the code (two recorded known findings: area stop rule, dedup bucket); they are watched by the search.',
+         'hand model of the recursive subdivision (fuel) incl. an exact "%.2f" key; induction on depth; field proof of the loop double point; ground-truth search by subdivision + Newton', '4/C06'),
+ 'C16': ('Proved over R: lengthAt 0 = 0 and lengthAt 1 = length for segments and paths; path evaluation = segment floor(t*n) at the fractional parameter, continuous on connected chains, reaches the end at t = 1; sample/regular sample start exactly at 0, end exactly at 1, stay in [0,1], non-decreasing; no exception for valid t, n, length (incl. t = 1.0) given the stated fuel. '
+         'Strict increase is refuted (recorded known finding); monotonicity of lengthAt and the 5% spacing rest on quadrature accuracy and are measured only.',
+         'hand model of the sampling loops (fuel) with bit-exact float stepping correspondence incl. integer / power-of-two lengths; induction on fuel; Coquelicot continuity', '4/C16'),
+ 'C17': ('Proved over R: flatten yields a chain from the start to the end whose vertices are the curve at a non-decreasing parameter list from exactly 0 to exactly 1, every edge from a curve records its origin, short curves become their chord, lines are returned unchanged, path flatten concatenates and copies the closed flag. '
+         'The edge-count clause is not proved (refuted for short cubics: two recorded known findings); purity is checked by the search.',
+         'hand model of the three flatten routines over the sampler model with bit-exact correspondence; list induction', '4/C17'),
 }
 PENDING_REASON = 'machinery for this property is not built yet in this revision (see DESIGN section 7); it is not claimed on the strength of a search alone'
 ALL = ['C%02d' % i for i in range(1, 21)]
